@@ -55,7 +55,12 @@ func WithGlobalTx(ctx context.Context, gc *GtxConfig, business CallbackWithCtx) 
 	}
 
 	if IsGlobalTx(ctx) {
-		clearTxConf(ctx)
+		// nested scope on a context shared with the enclosing scope: work on a fresh context
+		// variable carrying the xid (as a remote call would), so that the enclosing scope's
+		// xid, role and name are not overwritten and it still completes its own second phase
+		xid := GetXID(ctx)
+		ctx = InitSeataContext(ctx)
+		SetXID(ctx, xid)
 	}
 
 	if re = begin(ctx, gc); re != nil {
